@@ -46,6 +46,13 @@ def generate(rng, tier, index):
 
     mode = rng.choice(["scan", "scan", "fix"])
     docs = workload.draw_docs(rng, rng.choice([1, 2, 3, 4]), need=["failing"] if rng.random() < 0.7 else None)
+    if rng.random() < 0.3:
+        from .. import corpus
+
+        pool = corpus.load()
+        edge = sorted(n for n in pool if pool[n].group == "edge" and pool[n].tags.get("lines", 0) < 300)
+        name = rng.choice(edge)
+        docs[rng.randrange(len(docs))] = (name, pool[name].data)
     files, labels = workload.assign_names(rng, docs)
     selection = rng.choice(["default", "default", "all", "alone", "random"])
     flags = []
